@@ -478,6 +478,8 @@ class Exprs:
         k = op.get("k")
         if k == "const":
             v = op["v"]
+            if "v" in v and "item" in v:
+                return Ex("item", "%s=%s" % (short(v["item"], 2), v["v"]))
             if "v" in v:
                 return Ex("const", v["v"])
             if "fn" in v:
